@@ -201,3 +201,79 @@ func VH_c11_v6size() {
 	vAssert(carried == 2, "an IPv6 route was dropped or duplicated by the packer")
 	vReach("end")
 }
+
+// ---- MP withdrawals: the per-message NLRI budget at its boundary. The NLRI byte length is made
+// symbolic with OPAQUE-family NLRIs whose value is a buffer of symbolic length, so three withdrawals
+// reach the budget boundary that otherwise needs hundreds of prefixes.
+func VH_c11_mp_withdraw_size() {
+	ext := vBool("ext")
+	var ps []*Path
+	lens := 0
+	for i, k := range []string{"k1", "k2", "k3"} {
+		val := vBytes("val", vParam("maxlen"), 0)
+		n := bgp.NewOpaqueNLRI([]byte(k), val)
+		lens += n.Len()
+		ps = append(ps, &Path{info: &originInfo{nlri: n, nlriString: k, source: localSource}, family: bgp.RF_OPAQUE, IsWithdraw: true, localID: uint32(i)})
+	}
+	msgs := CreateUpdateMsgFromPaths(ps, &bgp.MarshallingOption{ExtendedMessage: ext})
+	carried := 0
+	for _, m := range msgs {
+		u := m.Body.(*bgp.BGPUpdate)
+		total := 19 + 2 + 2
+		n := 0
+		for _, a := range u.PathAttributes {
+			total += a.Len()
+			if r, ok := a.(*bgp.PathAttributeMpUnreachNLRI); ok {
+				n += len(r.Value)
+			}
+		}
+		carried += n
+		vAssert(total <= c11limit(ext) || n == 1, "MP withdraw message exceeds the session limit")
+	}
+	vAssert(carried == 3, "an MP withdrawal was dropped or duplicated by the packer")
+	vReach("end")
+}
+
+// ---- MP announcements: every prefix carries its own route's next hops; sharing only when identical ----
+func c11v6(c byte, key string, gsel, llsel int) *Path {
+	nlri, _ := bgp.NewIPAddrPrefix(netip.PrefixFrom(netip.AddrFrom16([16]byte{0x20, 0x01, 0xd, 0xb8, c}), 48))
+	g := netip.AddrFrom16([16]byte{0x20, 0x01, 0xd, 0xb8, 0xff, 0xff, 15: byte(1 + gsel)})
+	nhs := []netip.Addr{g}
+	if llsel > 0 {
+		nhs = append(nhs, netip.AddrFrom16([16]byte{0xfe, 0x80, 15: byte(llsel)}))
+	}
+	mp, _ := bgp.NewPathAttributeMpReachNLRI(bgp.RF_IPv6_UC, []bgp.PathNLRI{{NLRI: nlri}}, nhs...)
+	attrs := []bgp.PathAttributeInterface{
+		bgp.NewPathAttributeOrigin(0),
+		bgp.NewPathAttributeAsPath([]bgp.AsPathParamInterface{bgp.NewAs4PathParam(bgp.BGP_ASPATH_ATTR_TYPE_SEQ, []uint32{65001})}),
+		mp,
+	}
+	return &Path{info: &originInfo{nlri: nlri, nlriString: key, source: localSource}, pathAttrs: attrs, family: bgp.RF_IPv6_UC}
+}
+
+func VH_c11_mp_nexthops() {
+	s1, s2 := vChoice("nh", 6), vChoice("nh", 6)
+	ps := []*Path{c11v6(1, "2001:db8:100::/48", s1&1, s1>>1), c11v6(2, "2001:db8:200::/48", s2&1, s2>>1)}
+	msgs := CreateUpdateMsgFromPaths(ps, &bgp.MarshallingOption{})
+	seen := 0
+	for _, m := range msgs {
+		u := m.Body.(*bgp.BGPUpdate)
+		for _, a := range u.PathAttributes {
+			r, ok := a.(*bgp.PathAttributeMpReachNLRI)
+			if !ok {
+				continue
+			}
+			for _, n := range r.Value {
+				seen++
+				own := ps[0]
+				if n.NLRI.(*bgp.IPAddrPrefix).Prefix == ps[1].GetNlri().(*bgp.IPAddrPrefix).Prefix {
+					own = ps[1]
+				}
+				want := own.getPathAttr(bgp.BGP_ATTR_TYPE_MP_REACH_NLRI).(*bgp.PathAttributeMpReachNLRI)
+				vAssert(r.Nexthop == want.Nexthop && r.LinkLocalNexthop == want.LinkLocalNexthop, "announced prefix does not carry its own route's next hops")
+			}
+		}
+	}
+	vAssert(seen == 2, "an IPv6 announcement was dropped or duplicated")
+	vReach("end")
+}
